@@ -430,7 +430,9 @@ def predicate_object(spec, rng=None, quick=True):
             # integer-typed coordinate arrays mixed with non-integer scalars (np.arange grids are common)
             ti, zi = int_grid(times), int_grid(zs)
             tq, hq, zq = frac_points(rng, times, False, 1)[0], rng.uniform(0.1, 6.0), frac_points(rng, zs, False, 1)[0]
-            for args in [(tq, hq, zi), (ti, hq, zq), (tq, np.arange(0, 6), zq), (ti, hq, zi[:len(ti)] if len(zi) >= len(ti) else zq)]:
+            allarr = (ti, np.array([rng.uniform(0.1, 6.0) for _ in range(len(ti))]),
+                      np.array([frac_points(rng, zs, False, 1)[0] for _ in range(len(ti))]))   # every argument an array, times integer-typed
+            for args in [(tq, hq, zi), (ti, hq, zq), (tq, np.arange(0, 6), zq), (ti, hq, zi[:len(ti)] if len(zi) >= len(ti) else zq), allarr]:
                 arrs = [a for a in args if isinstance(a, np.ndarray)]
                 if arrs and all(a.size > 0 for a in arrs) and len({a.shape for a in arrs}) == 1:
                     check_elementwise(bc, meth, args, arrs[0].shape, bad, val1)
@@ -463,7 +465,7 @@ def predicate_object(spec, rng=None, quick=True):
                     check_elementwise(bc, meth, args, shape, bad, val1)
             ti, zi = int_grid(times), int_grid(zs)
             tq, zq = frac_points(rng, times, False, 1)[0], frac_points(rng, zs, False, 1)[0]
-            for args in [(tq, zi), (ti, zq)]:
+            for args in [(tq, zi), (ti, zq), (ti, np.array([frac_points(rng, zs, False, 1)[0] for _ in range(len(ti))]))]:
                 if args[0 if isinstance(args[0], np.ndarray) else 1].size > 0:
                     check_elementwise(bc, meth, args, (args[0] if isinstance(args[0], np.ndarray) else args[1]).shape, bad, val1)
         else:
